@@ -68,6 +68,13 @@ RunsInRect(rs, r) == \A i \in 1..Len(rs) :
 RECURSIVE RunsCountFrom(_, _)
 RunsCountFrom(rs, i) == IF i > Len(rs) THEN 0 ELSE (rs[i][3] - rs[i][2] + 1) + RunsCountFrom(rs, i + 1)
 RunsCount(rs) == RunsCountFrom(rs, 1)
+\* the k-th point (0-based) of the sequence that emission-order runs <<y, x0, x1>> stand for, <<>> beyond the end
+RECURSIVE RunsNthFrom(_, _, _)
+RunsNthFrom(rs, i, k) ==
+  IF i > Len(rs) THEN <<>>
+  ELSE LET n == rs[i][3] - rs[i][2] + 1 IN
+       IF k < n THEN <<rs[i][2] + k, rs[i][1]>> ELSE RunsNthFrom(rs, i + 1, k - n)
+RunsNth(rs, k) == RunsNthFrom(rs, 1, k)
 \* membership of a point in a run-encoded set
 InRuns(rs, p) == \E i \in 1..Len(rs) : rs[i][1] = p[2] /\ rs[i][2] <= p[1] /\ p[1] <= rs[i][3]
 \* runs of the row-major enumeration of a set of points S lying inside the rectangle r
